@@ -190,6 +190,75 @@ theorem znormWindow_spec (A : Arith α) (dist : List α) (window : Nat) (r : Lis
     rw [hw']
     exact ⟨weave_length dist out hl, fun i d hi hd => weave_zero dist out i d hi hd hl, out, rfl, rfl⟩
 
+/-! ## `znormWindowFilter` with its inner `znormalizeCenterVal`, all option combinations -/
+
+/-- `znormalizeCenterVal(valList)`: StatisticsError for fewer than two values (`statistics.stdev`), ZeroDivisionError
+for a constant window (deviation 0), otherwise the z-score of the centre element `valList[len // 2]` -/
+theorem zCenter_spec (A : Arith α) (w : List α) :
+    (w.length < 2 → zCenter A w = .error .statistics) ∧
+    (2 ≤ w.length → (w.all fun v => v == w.headD default) = true → zCenter A w = .error .zeroDivision) ∧
+    (2 ≤ w.length → (w.all fun v => v == w.headD default) = false →
+      zCenter A w = .ok (A.z w (w.getD (w.length / 2) default))) := by
+  refine ⟨?_, ?_, ?_⟩
+  · intro h; simp [zCenter, statGuard, h, bind, Except.bind]
+  · intro h hc
+    have : ¬ w.length < 2 := by omega
+    simp only [zCenter, statGuard, this, if_false, hc, if_true, bind, Except.bind]
+  · intro h hc
+    have : ¬ w.length < 2 := by omega
+    simp only [zCenter, statGuard, this, if_false, hc, bind, Except.bind, pure, Except.pure]
+    rfl
+
+/-- with a filter function that never raises, `stepFilterEP` IS the `_stepFilter` of `Numeric.lean` (so
+`C20.stepFilter_spec` / `stepFilter_length` describe its windows) -/
+theorem stepFilterEP_pure (g : List α → α) (dist : List α) (window : Nat) (pad : Bool) :
+    stepFilterEP (fun w => .ok (g w)) dist window pad = .ok (Numeric.stepFilter g dist window pad) := by
+  unfold stepFilterEP Numeric.stepFilter
+  generalize dist.zipIdx = l
+  generalize dist.length = n
+  induction l with
+  | nil => rfl
+  | cons x xs ih =>
+    rw [List.mapM_cons, ih]
+    simp only [bind, Except.bind, pure, Except.pure, List.map_cons]
+    by_cases hc : (pad || decide (window / 2 ≤ x.2) && decide (x.2 + window / 2 < n)) = true
+    · rw [if_pos hc, if_pos hc]
+    · rw [if_neg hc, if_neg hc]
+
+theorem znormWindowFilter_padded_zero_filtered (A : Arith α) (dist : List α) (window : Nat) :
+    znormWindowFilter A dist window true true = znormWindow A dist window := by
+  simp [znormWindowFilter, znormWindow, stepFilterEP, stepFilterE]
+
+/-- **whenever `znormWindowFilter` returns** (any window, padding on or off, zero filtering on or off): the result has
+the length of the input; with zero filtering every non-positive element comes back as `0` at its own place -/
+theorem znormWindowFilter_spec (A : Arith α) (dist : List α) (window : Nat) (pad fz : Bool) (r : List α)
+    (h : znormWindowFilter A dist window pad fz = .ok r) :
+    r.length = dist.length ∧
+    (fz = true → ∀ (i : Nat) (d : α), dist[i]? = some d → ¬ Tm.zero < d → r[i]? = some Tm.zero) := by
+  unfold znormWindowFilter at h
+  cases fz with
+  | false =>
+    simp only [Bool.not_false, if_true] at h
+    have := mapM_length _ _ _ h
+    exact ⟨by simpa using this, by intro h0; cases h0⟩
+  | true =>
+    simp only [Bool.not_true, Bool.false_eq_true, if_false, bind, Except.bind] at h
+    cases ho : stepFilterEP (zCenter A) (dist.filter fun v => decide (Tm.zero < v)) window pad with
+    | error e => rw [ho] at h; cases h
+    | ok out =>
+      rw [ho] at h
+      simp only [pure, Except.pure] at h
+      cases h
+      have hl : out.length = (dist.filter fun v => decide (Tm.zero < v)).length := by
+        have := mapM_length _ _ _ ho
+        simpa using this
+      have hw : reinsertZeros (zeroIdxFrom dist 0) out = weave dist out := by
+        have := reinsert_weave dist 0 [] out rfl (by omega)
+        simpa [reinsertZeros] using this
+      have hw' : reinsertZeros ((dist.zipIdx.filter fun vx => !decide (Tm.zero < vx.1)).map (·.2)) out = weave dist out := hw
+      rw [hw']
+      exact ⟨weave_length dist out hl, fun _ i d hi hd => weave_zero dist out i d hi hd hl⟩
+
 theorem foldlM_len {β : Type} (f : List (List α) → β → Except PIErr (List (List α)))
     (hf : ∀ a b a', f a b = .ok a' → a'.length = a.length) :
     ∀ (l : List β) (a r : List (List α)), l.foldlM f a = .ok r → r.length = a.length := by
